@@ -7,7 +7,7 @@ CONSTANTS
   AllowDupIP = TRUE
   MaxInbound = 1
   MaxInst = 3
-  MaxIncoming = 2
+  MaxIncoming = 1
   MaxDials = 1
   MaxStops = 2
   MaxTries = 1
